@@ -47,20 +47,44 @@ Proof.
 Qed.
 
 (** the whole dummy surface: the ray is moved to the plane and nothing else changes *)
+Lemma nonzero_0_R : nonzero (O:=ROps) (ofZ 0) = false.
+Proof. unfold nonzero. rops. replace (Reqb 0 0) with true; [reflexivity|]. symmetry. apply Reqb_true. reflexivity. Qed.
+
+Lemma localize_dummy zd n x y z L M N i w opd :
+  localize (dummy_surf (O:=ROps) zd n) (mkRay (O:=ROps) x y z L M N i w opd) = mkRay (O:=ROps) x y (z - zd) L M N i w opd.
+Proof.
+  unfold localize, dummy_surf.
+  cbn [s_x s_y s_z s_rx s_ry s_rz rx ry rz rL rM rN ri rw ropd].
+  rewrite !nonzero_0_R. unfold k_translate. rops. cbn [rx ry rz rL rM rN ri rw ropd].
+  f_equal; ring.
+Qed.
+Lemma globalize_dummy zd n x y z L M N i w opd :
+  globalize (dummy_surf (O:=ROps) zd n) (mkRay (O:=ROps) x y z L M N i w opd) = mkRay (O:=ROps) x y (z + zd) L M N i w opd.
+Proof.
+  unfold globalize, dummy_surf.
+  cbn [s_x s_y s_z s_rx s_ry s_rz rx ry rz rL rM rN ri rw ropd].
+  rewrite !nonzero_0_R. unfold k_translate. rops. cbn [rx ry rz rL rM rN ri rw ropd].
+  f_equal; ring.
+Qed.
+
 Theorem dummy_surface_advances (zd n : R) (r : ray ROps) :
   n <> 0 -> rN r <> 0 -> 0 <= (zd - rz r) / rN r ->
   trace_surface (dummy_surf (O:=ROps) zd n) r = Some (advance (O:=ROps) ((zd - rz r) / rN r) n r).
 Proof.
   intros Hn HN Ht. destruct r as [x y z L M N i w opd]. cbn [rz rN] in *.
-  unfold trace_surface, dummy_surf, localize, globalize, advance.
-  cbn [s_x s_y s_z s_rx s_ry s_rz s_shape s_n1 s_n2 s_k1 s_refl s_aper s_coat rx ry rz rL rM rN ri rw ropd].
-  assert (Hz : nonzero (O:=ROps) (ofZ 0) = false).
-  { unfold nonzero. rops. replace (Reqb 0 0) with true; [reflexivity|]. symmetry. apply Reqb_true. reflexivity. }
-  rewrite !Hz. unfold k_translate. rops.
-  cbn [rx ry rz rL rM rN ri rw ropd distance normal].
+  unfold trace_surface. rewrite localize_dummy.
+  assert (E1 : s_shape (dummy_surf (O:=ROps) zd n) = SPlane) by reflexivity.
+  assert (E2 : s_k1 (dummy_surf (O:=ROps) zd n) = 0) by reflexivity.
+  assert (E3 : s_aper (dummy_surf (O:=ROps) zd n) = None) by reflexivity.
+  assert (E4 : s_refl (dummy_surf (O:=ROps) zd n) = false) by reflexivity.
+  assert (E5 : s_coat (dummy_surf (O:=ROps) zd n) = None) by reflexivity.
+  assert (E6 : s_n1 (dummy_surf (O:=ROps) zd n) = n) by reflexivity.
+  assert (E7 : s_n2 (dummy_surf (O:=ROps) zd n) = n) by reflexivity.
+  rewrite E1, E2, E3, E4, E5, E6, E7.
+  unfold distance, normal. cbn [rx ry rz rL rM rN ri rw ropd].
   unfold k_plane_distance. rops.
   set (t := (zd - z) / N) in *.
-  replace (- (z + - zd) / N) with t by (unfold t; field; exact HN).
+  replace (- (z - zd) / N) with t by (unfold t; field; exact HN).
   replace (Rltb t 0) with false by (symmetry; apply Rltb_false; exact Ht).
   unfold k_propagate. rops.
   replace (4 * PI * 0 / w) with 0 by (unfold Rdiv; ring).
@@ -68,6 +92,7 @@ Proof.
   cbn [rx ry rz rL rM rN ri rw ropd].
   rewrite (refract_equal_media 0 0 1 n L M N Hn).
   cbn [rx ry rz rL rM rN ri rw ropd].
+  rewrite globalize_dummy. unfold advance. cbn [rx ry rz rL rM rN ri rw ropd]. rops.
   f_equal. f_equal; ring.
 Qed.
 
@@ -101,30 +126,30 @@ Qed.
 
 Lemma localize_set_w u w' (r : ray ROps) : localize u (set_w w' r) = set_w w' (localize u r).
 Proof.
-  destruct u, r. unfold localize, set_w.
+  destruct u as [sx sy sz srx sry srz sh n1 n2 k1 rf ap co], r as [x y z L M N i w opd]. unfold localize, set_w.
   cbn [s_x s_y s_z s_rx s_ry s_rz rx ry rz rL rM rN ri rw ropd].
-  destruct (k_translate ROps (neg s_x) (neg s_y) (neg s_z) rx ry rz) as [[a b] c].
+  destruct (k_translate ROps (neg sx) (neg sy) (neg sz) x y z) as [[a b] c].
   cbn [rx ry rz rL rM rN ri rw ropd].
-  destruct (nonzero s_rx); cbn [rx ry rz rL rM rN ri rw ropd];
-    [destruct (k_rotate_x ROps (neg s_rx) b c rM rN) as [[[? ?] ?] ?]|]; cbn [rx ry rz rL rM rN ri rw ropd];
-  (destruct (nonzero s_ry); cbn [rx ry rz rL rM rN ri rw ropd];
+  destruct (nonzero srx); cbn [rx ry rz rL rM rN ri rw ropd];
+    [destruct (k_rotate_x ROps (neg srx) b c M N) as [[[? ?] ?] ?]|]; cbn [rx ry rz rL rM rN ri rw ropd];
+  (destruct (nonzero sry); cbn [rx ry rz rL rM rN ri rw ropd];
     [match goal with |- context [k_rotate_y ROps ?p ?q ?v ?u ?t] => destruct (k_rotate_y ROps p q v u t) as [[[? ?] ?] ?] end|];
    cbn [rx ry rz rL rM rN ri rw ropd]);
-  (destruct (nonzero s_rz); cbn [rx ry rz rL rM rN ri rw ropd];
+  (destruct (nonzero srz); cbn [rx ry rz rL rM rN ri rw ropd];
     [match goal with |- context [k_rotate_z ROps ?p ?q ?v ?u ?t] => destruct (k_rotate_z ROps p q v u t) as [[[? ?] ?] ?] end|];
    cbn [rx ry rz rL rM rN ri rw ropd]); reflexivity.
 Qed.
 
 Lemma globalize_set_w u w' (r : ray ROps) : globalize u (set_w w' r) = set_w w' (globalize u r).
 Proof.
-  destruct u, r. unfold globalize, set_w.
+  destruct u as [sx sy sz srx sry srz sh n1 n2 k1 rf ap co], r as [x y z L M N i w opd]. unfold globalize, set_w.
   cbn [s_x s_y s_z s_rx s_ry s_rz rx ry rz rL rM rN ri rw ropd].
-  destruct (nonzero s_rz); cbn [rx ry rz rL rM rN ri rw ropd];
-    [destruct (k_rotate_z ROps s_rz rx ry rL rM) as [[[? ?] ?] ?]|]; cbn [rx ry rz rL rM rN ri rw ropd];
-  (destruct (nonzero s_ry); cbn [rx ry rz rL rM rN ri rw ropd];
+  destruct (nonzero srz); cbn [rx ry rz rL rM rN ri rw ropd];
+    [destruct (k_rotate_z ROps srz x y L M) as [[[? ?] ?] ?]|]; cbn [rx ry rz rL rM rN ri rw ropd];
+  (destruct (nonzero sry); cbn [rx ry rz rL rM rN ri rw ropd];
     [match goal with |- context [k_rotate_y ROps ?p ?q ?v ?u ?t] => destruct (k_rotate_y ROps p q v u t) as [[[? ?] ?] ?] end|];
    cbn [rx ry rz rL rM rN ri rw ropd]);
-  (destruct (nonzero s_rx); cbn [rx ry rz rL rM rN ri rw ropd];
+  (destruct (nonzero srx); cbn [rx ry rz rL rM rN ri rw ropd];
     [match goal with |- context [k_rotate_x ROps ?p ?q ?v ?u ?t] => destruct (k_rotate_x ROps p q v u t) as [[[? ?] ?] ?] end|];
    cbn [rx ry rz rL rM rN ri rw ropd]);
   match goal with |- context [k_translate ROps ?a ?b ?c ?d ?e ?f] => destruct (k_translate ROps a b c d e f) as [[? ?] ?] end;
@@ -178,7 +203,7 @@ Proof.
   generalize (cs1 a); intros H.
   set (c := cos a) in *. set (s := sin a) in *.
   assert (Hs : s * s = 1 - c * c) by lra.
-  ring_simplify. nra.
+  ring [Hs].
 Qed.
 Theorem sphere_tilt_y_same_points (X Y Z vx vy vz Rc a : R) :
   let '(x0, y0, z0) := k_translate ROps (- vx) (- vy) (- vz) X Y Z in
@@ -190,5 +215,5 @@ Proof.
   generalize (cs1 a); intros H.
   set (c := cos a) in *. set (s := sin a) in *.
   assert (Hs : s * s = 1 - c * c) by lra.
-  ring_simplify. nra.
+  ring [Hs].
 Qed.
